@@ -18,6 +18,8 @@ var c10Progs = []string{
 	"{ print json($) }",
 	"{ o = {b: 1, a: 2}; print o; for (k in o) print k }",
 	"{ print $.pluck('c', 'a') }",
+	"{ print num('12') + 1, json([1, {k: 2}]), $.length(); printf('%s|%v\n', 'p', 3) }",
+	"{ a = [3, 1, 2]; a.push(0); print a.sort(), a.contains(3), a.pop(), a.popfirst(), a.length(), 'Ab'.upper(), 'Ab'.lower(), 'a,b'.split(','), 2.5.floor(), 2.5.ceil(), 2.5.round() }",
 }
 
 type c10Result struct {
@@ -77,6 +79,11 @@ var c10Residue = []string{
 	"function f(n) { if (n > 0) return f(n - 1); return 0 }\nBEGIN { print f(50); x = match (1) { 1 => 'a' } }",
 	"BEGIN { a = []; b = []; a.push(b.push(1)); print a, b; exit }",
 	"BEGIN { print 1 / 0 }",
+	// a run that uses the names of builtins and methods for its own variables
+	"BEGIN { json = 1; num = 'n'; printf = [2]; length = 3; push = 4; pluck = 5 }",
+	"BEGIN { for (num in [1, 2]) { json = num } for (printf, json in {a: 1}) { } }",
+	"function num(x) { return 'mine' }\nfunction json(x) { return 'mine' }\nBEGIN { print num(1), json(2) }",
+	"BEGIN { a = [1]; a.length = 5; o = {}; o.pluck = 1; s = 'x'; x = match (1) { num => num, json => json } }",
 }
 
 // VHC10Residue: a run is not influenced by earlier, unrelated runs in the same process
